@@ -11,7 +11,7 @@ def check(ctx, res, rule_search, rule_shortcut):
     res.saw(f)
     res.saw(crp)
     # row 7: compare_restart_point returns the comparison unchanged, operands (restart key, target)
-    ev = APE.run(prog, cg, crp, bound=1)
+    ev = APE.run(prog, cg, crp, bound=APE.BOUND)
     n7 = 0
     for p in ev.paths:
         if p.end != "exit":
